@@ -5,6 +5,7 @@ import TakVerif.Proofs.TEI
 Theorems about `Tak.TEI` (the model of `tei/server.go` *with* the repairs `fixes/C17-budget.diff`,
 `fixes/C13-tei-*.diff`).  Part 1: the budget rule. -/
 set_option linter.unusedVariables false
+set_option linter.unusedSimpArgs false
 namespace C17
 open Tak Tak.TEI Spec.TEI Proofs.TEI
 
@@ -60,10 +61,11 @@ example : calcBudget64 (2^62) (2^62) (2^62) = 2^62 - 1000000 := by decide +kerne
 theorem budget_pinned_counterexample :
     ¬ (calcBudgetPinned 5000000000 1000000 0 < 1000000) := by decide
 
-/-- What `analyze` hands to `context.WithTimeout`: with clock values whose millisecond counts fit
+/-- The limit `goBudget` computes from the clock arguments (the mover's clock and increment by side to
+move, and movetime): with clock values whose millisecond counts fit
 (`≤ 4.6·10^12` ms, i.e. the durations stay within `[0, 2^62]` ns) the limit is strictly below the mover's
 remaining clock whenever one is given and never above a given movetime. -/
-theorem tei_go_within_clock (p : Pos) (a : GoArgs) (b : Int)
+theorem goBudget_within_clock (p : Pos) (a : GoArgs) (b : Int)
     (hm : 0 ≤ a.movetime) (hw : 0 ≤ a.white ∧ a.white ≤ 2^62) (hb : 0 ≤ a.black ∧ a.black ≤ 2^62)
     (hwi : 0 ≤ a.winc ∧ a.winc ≤ 2^62) (hbi : 0 ≤ a.binc ∧ a.binc ≤ 2^62)
     (h : goBudget p a = some b) :
@@ -130,6 +132,59 @@ theorem tei_one_bestmove (env : Env) (hC : Collaborators env) (hS : SearcherOK e
   rw [hrec, hst]
   simp [recOf]
 
+/-- **The deadline `analyze` installs is within the clock.**  After any carried-out history that tells a
+position `p`, for a `go` with well-formed clock arguments (durations within `[0, 2^62]` ns), look at the
+deadline recorded for that command (`Rec.deadline`: the duration `analyze` hands to
+`context.WithTimeout`; compared with the real engine through the harness' recorder on every run):
+* if the mover (White's clock when White is to move, Black's otherwise) has a clock, a deadline **is**
+  installed and it is strictly less than that clock — at 1 ms it is 0, which expires at once;
+* if a movetime is given, a deadline is installed and it is at most the movetime;
+* both bounds hold together when both are given; with neither, no deadline is installed.
+Holds for every searcher answer (also an empty PV) and every environment with total collaborators. -/
+theorem tei_go_within_clock (env : Env) (hC : Collaborators env)
+    (pre post : List (List String)) (args : List String) (st : Engine) (p : Pos) (a : GoArgs)
+    (hpre : stateAfter env 0 {} pre = some st)
+    (htold : posTold env pre.reverse = some p)
+    (hargs : parseGoArgs args {} = some a)
+    (hm : 0 ≤ a.movetime) (hw : 0 ≤ a.white ∧ a.white ≤ 2^62) (hb : 0 ≤ a.black ∧ a.black ≤ 2^62)
+    (hwi : 0 ≤ a.winc ∧ a.winc ≤ 2^62) (hbi : 0 ≤ a.binc ∧ a.binc ≤ 2^62) :
+    let tm := if p.toMove == .white then a.white else a.black
+    let dl := ((run env (pre ++ ("go" :: args) :: post)).1[pre.length]?).bind (·.deadline)
+    (tm > 0 → ∃ d, dl = some d ∧ d < tm ∧ (a.movetime > 0 → d ≤ a.movetime)) ∧
+    (a.movetime > 0 → ∃ d, dl = some d ∧ d ≤ a.movetime ∧ (tm ≠ 0 → d < tm)) ∧
+    (a.movetime = 0 → tm = 0 → dl = none) := by
+  have hA := tei_position_after env pre st hpre
+  have hp : st.pos = some p := by rw [hA.2, htold]
+  have hI := stateAfter_inv env hC pre 0 {} st (inv_init env) hpre
+  obtain ⟨r, han, hdl⟩ := analyze_installs env pre.length st args p a hI hp hargs
+  have hst := step_go env pre.length st args r han
+  have hrec := runFrom_record_at env pre ("go" :: args) post 0 {} st hpre
+  simp only [Nat.zero_add] at hrec
+  have hdl' : ((run env (pre ++ ("go" :: args) :: post)).1[pre.length]?).bind (·.deadline) = goBudget p a := by
+    unfold run
+    rw [hrec, hst]
+    simp [recOf, hdl]
+  simp only [hdl']
+  have key := goBudget_within_clock p a
+  refine ⟨?_, ?_, ?_⟩
+  · intro htm
+    have hsome : goBudget p a = some (calcBudget64 a.movetime (if p.toMove == .white then a.white else a.black)
+        (if p.toMove == .white then a.winc else a.binc)) := by
+      unfold goBudget
+      cases hc : (p.toMove == Color.white) <;> simp [hc] at htm ⊢ <;> (intro _; exact htm)
+    have := key _ hm hw hb hwi hbi hsome
+    exact ⟨_, hsome, this.1 (by omega), this.2⟩
+  · intro hmt
+    have hsome : goBudget p a = some (calcBudget64 a.movetime (if p.toMove == .white then a.white else a.black)
+        (if p.toMove == .white then a.winc else a.binc)) := by
+      unfold goBudget
+      cases hc : (p.toMove == Color.white) <;> simp [hc] <;> (intro h; omega)
+    have := key _ hm hw hb hwi hbi hsome
+    exact ⟨_, hsome, this.2 hmt, this.1⟩
+  · intro h0 ht0
+    unfold goBudget
+    cases hc : (p.toMove == Color.white) <;> simp [hc] at ht0 ⊢ <;> omega
+
 /-- **`teinewgame` discards earlier state**: whatever the engine remembered (cached searcher, position,
 size), the rest of the session after a `teinewgame` line is the same as on any other engine state. -/
 theorem tei_newgame_resets (env : Env) (k : Nat) (st st' : Engine) (args : List String)
@@ -170,6 +225,11 @@ example : ((run exEnv exCmds).1.map (fun r => (r.st.size, r.st.pos.isSome))) =
     [(3, false), (3, true), (3, true), (4, false), (4, false)] := by decide +kernel
 example : (stateAfter exEnv 0 {} (exCmds.take 2)).isSome = true := by decide +kernel
 example : ((posTold exEnv (exCmds.take 2).reverse).map (fun p => p.gameOver.1)) = some false := by decide +kernel
+/-- with exactly 1 ms on the mover's clock the installed deadline is 0 (not "none"), for either mover -/
+example : (run exEnv [["teinewgame", "3"], ["position", "startpos"], ["go", "wtime", "1"],
+      ["go", "movetime", "300", "wtime", "1"], ["go", "btime", "1"], ["go"],
+      ["position", "startpos", "moves", "a1"], ["go", "wtime", "60000", "btime", "1"]]).1.map (·.deadline)
+    = [none, none, some 0, some 0, none, none, none, some 0] := by decide +kernel
 example : parseGoArgs ["movetime", "1000"] {} = some ({ movetime := 1000000000 } : GoArgs) := by decide +kernel
 
 end C17
